@@ -728,7 +728,7 @@ func TestVerif_C32(t *testing.T) {
 	r := verifmc.NewReport("C32", "fullsync-process", "model_checking")
 	defer r.Write()
 	type runCfg struct{ nodes, depth, batch int }
-	runs := []runCfg{{2, 3, 2}, {3, 3, 2}, {4, 3, 2}, {5, 2, 2}}
+	runs := []runCfg{{2, 3, 2}, {3, 3, 2}, {4, 2, 2}, {5, 2, 2}}
 	if verifmc.Thorough() {
 		runs = []runCfg{{2, 3, 3}, {3, 3, 3}, {4, 3, 3}, {6, 2, 2}, {5, 2, 3}, {5, 3, 2}}
 	}
